@@ -253,6 +253,22 @@ func (l *ltWorld) apply(op string, judge bool) (viol []string, digest string, ef
 			me.feats = append(me.feats, &ltFeat{num: me.next - 1, typ: t, role: r, desc: "", fns: map[string]string{}})
 			effect = true
 		}
+	case "desc":
+		// the description of a feature is changed after the feature was created (and possibly announced)
+		t, r, d := f[2], f[3], f[4]
+		mf := l.find(e, t, r)
+		if mf == nil {
+			break
+		}
+		fl := ent.FeatureOfTypeAndRole(ltTypes[t], ltRoles[r])
+		if fl == nil {
+			break
+		}
+		fl.SetDescriptionString(d)
+		if mf.desc != d {
+			mf.desc = d
+			effect = true
+		}
 	case "fn":
 		t, r, fn, rw := f[2], f[3], f[4], f[5]
 		mf := l.find(e, t, r)
@@ -357,7 +373,11 @@ func (l *ltWorld) key() string {
 				fns = append(fns, string(fn)+"="+o.String())
 			}
 			sort.Strings(fns)
-			fs = append(fs, fmt.Sprintf("%d:%s:%s:%v", uint(*ft.Address().Feature), ft.Type(), ft.Role(), fns))
+			d := ""
+			if ft.Description() != nil {
+				d = string(*ft.Description())
+			}
+			fs = append(fs, fmt.Sprintf("%d:%s:%s:%q:%v", uint(*ft.Address().Feature), ft.Type(), ft.Role(), d, fns))
 		}
 		sort.Strings(fs)
 		att := l.w.L.Entity(spine.NewAddressEntityType(ucEnts[k])) != nil
@@ -378,7 +398,9 @@ func c07Alphabet(thorough bool) []string {
 	a = append(a, "feat:e1:ms:c", "feat:e1:ec:s", "dupfeat:e1:lc:s", "dupfeat:e1:ec:c",
 		"fn:e1:lc:s:limit:rw", "fn:e1:lc:s:limit:r", "fn:e1:lc:s:limitdesc:r", "fn:e1:ms:s:meas:r", "fn:e1:lc:c:limit:rw", "fn:e2:lc:s:limit:r",
 		// every combination of the two flags: write-only and neither
-		"fn:e1:lc:s:limitdesc:w", "fn:e1:ms:s:meas:-")
+		"fn:e1:lc:s:limitdesc:w", "fn:e1:ms:s:meas:-",
+		// descriptions changed after creation / announcement
+		"desc:e1:lc:s:changed", "desc:e1:lc:s:again", "desc:e2:lc:s:changed")
 	if thorough {
 		a = append(a, "feat:e1:ec:c", "fn:e1:ms:s:measdesc:r", "fn:e1:ec:s:ecdesc:r", "fn:e2:ms:s:meas:rw", "feat:e11:ec:s")
 	}
